@@ -160,4 +160,13 @@ CHECKS = {
         note=COMMON_NOTE,
         technique="TLA+ interpreter state machine with object heap, TLC BFS over call histories (invariants + action property), behaviours replayed into Model.Run",
         design_ref="DESIGN.md section 6 (C02)"),
+    "C16": dict(
+        text="Two-directional: (spec->code) TLC enumerates batch compositions for generated per-sample models, proves the "
+             "specification's own BatchIndependent theorem as an invariant and emits, per batch, a history (batch, then each sample "
+             "alone) with exact expected outputs that is replayed on one real Model; (code->spec) the recorder drives the repository's "
+             "sample models (mlp, gru, ndm, scaler) with random batches, singles, permutations and sub-selections and TLC validates the "
+             "recorded trace against Trace_Batch.tla, which has a behaviour only if every sample's rows are the same in every composition.",
+        note=COMMON_NOTE,
+        technique="TLA+ RunSem + TLC BFS (BatchIndependent invariant) replayed into Model.Run; trace validation of recorded sample-model runs against Trace_Batch.tla",
+        design_ref="DESIGN.md section 6 (C16)"),
 }
